@@ -49,6 +49,7 @@ var Prop = &engine.Prop{
 		{Name: "stream", Quick: 6000, Thorough: 480000, Fn: streamCase},
 		{Name: "gate", Quick: 1500, Thorough: 120000, Fn: gateCase},
 		{Name: "stress", Quick: 24, Thorough: 1200, Repeat: 20, Fn: stressCase},
+		{Name: "abandon", Quick: 300, Thorough: 12000, Fn: abandonCase},
 	},
 	Floors: map[string]int64{
 		"coherence_checks_on_cached_keys": 2000,
@@ -326,7 +327,15 @@ func (g *group) cachedValue(k mux.Hashed2Int) (v interface{}, cached bool, place
 
 func keyPool(r interface{ Intn(int) int }) ([]mux.Hashed2Int, bool) {
 	extreme := false
-	switch r.Intn(5) {
+	switch r.Intn(7) {
+	case 5:
+		// different keys with one hashed int (same worker, same hash): one number in five key types
+		n := []int{5, 0, 100, 255}[r.Intn(4)]
+		return []mux.Hashed2Int{mux.Int(n), mux.Int64(int64(n)), mux.UInt(uint(n)), mux.Int16(int16(n)), mux.UInt32(uint32(n))}, false
+	case 6:
+		// strings whose CRC32 collides, and the number that equals their hash
+		h := mux.String("plumless").HashedInt()
+		return []mux.Hashed2Int{mux.String("plumless"), mux.String("buckeroo"), mux.Int(h), mux.String("k"), mux.Int64(int64(h))}, false
 	case 0:
 		return []mux.Hashed2Int{mux.Int(0), mux.Int(1), mux.Int(-1), mux.Int(7), mux.Int(-12345)}, false
 	case 1:
